@@ -84,7 +84,11 @@ struct Report {
     if (outcomes.size() < 64) outcomes.insert(o);
   }
   void note(const std::string& n) { notes.push_back(n); }
-  bool want(const std::string& case_id) const { return only.empty() || only == case_id; }
+  // replay filter: the requested case, or the case a requested sub-case ("<case>|<detail>") belongs to
+  bool want(const std::string& case_id) const {
+    return only.empty() || only == case_id ||
+           (only.size() > case_id.size() && only[case_id.size()] == '|' && only.compare(0, case_id.size(), case_id) == 0);
+  }
   void sample(const std::string& json) {
     if (samples < max_samples && !silent) {
       samples++;
